@@ -20,3 +20,50 @@ package dhcpd
 //@ func (s *server) registerHandlers()
 //@   property C11
 //@   modifies *
+
+// ---- C05: lock discipline (ghost lock state; every access to a guarded field in the package is an obligation) ----
+//@ guarded v4Server.leases by leasesLock
+//@ guarded v4Server.hostsIndex by leasesLock
+//@ guarded v4Server.ipIndex by leasesLock
+//@ guarded v4Server.leasedOffsets by leasesLock
+
+// Helpers that work on the lease table and expect the table lock to be held by the caller.
+//@ func (s *v4Server) rmLeaseByIndex(i int)
+//@   requires held(s.leasesLock)
+//@   modifies *
+//@ func (s *v4Server) rmLease(lease *dhcpsvc.Lease) (err error)
+//@   requires held(s.leasesLock)
+//@   modifies *
+//@ func (s *v4Server) rmDynamicLease(lease *dhcpsvc.Lease) (err error)
+//@   requires held(s.leasesLock)
+//@   modifies *
+//@ func (s *v4Server) reserveLease(mac net.HardwareAddr) (l *dhcpsvc.Lease, err error)
+//@   requires held(s.leasesLock)
+//@   modifies *
+//@ func (s *v4Server) findLease(mac net.HardwareAddr) (l *dhcpsvc.Lease)
+//@   requires held(s.leasesLock)
+//@   modifies *
+//@ func (s *v4Server) findExpiredLease() (r0 int)
+//@   requires held(s.leasesLock)
+//@   modifies *
+//@ func (s *v4Server) nextIP() (r0 net.IP)
+//@   requires held(s.leasesLock)
+//@   modifies *
+//@ func (s *v4Server) addLease(l *dhcpsvc.Lease) (err error)
+//@   requires held(s.leasesLock)
+//@   modifies *
+//@ func (s *v4Server) validateStaticLease(l *dhcpsvc.Lease) (err error)
+//@   requires held(s.leasesLock)
+//@   modifies *
+//@ func (s *v4Server) commitLease(l *dhcpsvc.Lease, hostname string)
+//@   requires held(s.leasesLock)
+//@   modifies *
+//@ func (s *v4Server) findLeaseForIP(ip netip.Addr, mac net.HardwareAddr) (l *dhcpsvc.Lease)
+//@   requires held(s.leasesLock)
+//@   modifies *
+//@ func (s *v4Server) nextIP$1(ip net.IP) (r0 bool)
+//@   requires held(s.leasesLock)
+//@   modifies *
+//@ func (s *v4Server) allocateLease(mac net.HardwareAddr) (l *dhcpsvc.Lease, err error)
+//@   requires held(s.leasesLock)
+//@   modifies *
